@@ -7,7 +7,7 @@ def ctrlStep (d : DState) (j : Json) : DState × Json :=
     let job := pJob j
     let cl := pCluster j
     let d' : DState := { job := job, cl := cl, sys := Sys.init job cl, hidden := fun _ => false }
-    (d', full d' [] true)
+    (d', full d' (hypChecks j job cl) true)
   | "round" =>
     let oracle := (getArr j "asg").map pAsg
     let orders := (getArr j "asg").map pOrders
